@@ -263,6 +263,14 @@ def run_one(scn: dict) -> dict:
                 o['child_alive_at_hang'] = p._popen is not None and p._popen.returncode is None and _pid_alive(p.pid)
             except Exception:
                 pass
+        if o.get('child_alive_at_hang') and CURRENT.get('started') and p is not None:
+            try:
+                o['child_proc_state'] = open(f'/proc/{p.pid}/stat').read().split(')')[-1].split()[0]
+                os.kill(p.pid, signal.SIGUSR1)
+                time.sleep(0.4)
+                o['child_stack'] = open(CURRENT['started'] + '.dump').read()[-3000:]
+            except Exception as e:
+                o['child_stack'] = 'unavailable: ' + repr(e)
         emit(o)
         _kill_children()
         os._exit(3)
